@@ -5,7 +5,7 @@
    transactions name each other (or themselves) in Conflicts; a transaction has no duplicate Conflicts
    attribute; SystemFee + NetworkFee < 2^64; balances < 2^255; the Feer's answers change only at
    RemoveStale ([OStale] carries the new ones). *)
-From NG Require Import Common.Tactics Mempool.Model Mempool.Spec Mempool.AddMain Mempool.Main Mempool.Equiv Mempool.Resend Mempool.Legacy Mempool.Examples.
+From NG Require Import Common.Tactics Mempool.Model Mempool.Spec Mempool.AddMain Mempool.Main Mempool.Equiv Mempool.Resend Mempool.Legacy Mempool.Examples Mempool.Conc.
 Open Scope N_scope.
 
 (* after every sequence of Add / Remove / Verify / RemoveStale the invariant holds *)
@@ -125,6 +125,65 @@ Theorem C08_payer_by_cosigner_refuted :
   /\ sum_fees (2, 0) [pc_t1; pc_t2] = 120 /\ pc_bal (2, 0) = 100.
 Proof. exact payer_by_cosigner_refuted. Qed.
 Print Assumptions C08_payer_by_cosigner_refuted.
+
+(* ---- the pool under concurrent callers. The pool is called from many goroutines; every operation takes the
+   pool's RWMutex, so a concurrent execution is an interleaving of LOCK REGIONS (Mempool/Conc.v: a thread is a list
+   of regions over the shared state and its own local variables; a schedule picks whose next region runs).
+   If every thread is ONE region, any schedule is the threads' operations one after another, each exactly once, in
+   the order the lock was taken ... *)
+Theorem C08_atomic_schedule_is_sequential : forall (S L : Type) sched (c : @conf S L),
+  atomic_threads c ->
+  let order := effective sched c in
+  exec sched c = exec order c
+  /\ NoDup order
+  /\ (forall i, In i order -> pending c i = true)
+  /\ (finished (exec sched c) -> forall i, pending c i = true -> In i order).
+Proof. intros S L. exact atomic_schedule_is_sequential. Qed.
+Print Assumptions C08_atomic_schedule_is_sequential.
+
+(* ... so, for the pool's operations issued concurrently (one region each): the state after ANY complete schedule is
+   the state after running the same operations sequentially in some order (linearizability) ... *)
+Theorem C08_concurrent_ops_linearizable : forall c st ops sched,
+  finished (exec sched (pool_conf c st ops)) ->
+  exists order,
+    Permutation.Permutation order (seq 0 (length ops))
+    /\ exec sched (pool_conf c st ops) = exec order (pool_conf c st ops)
+    /\ fst (exec sched (pool_conf c st ops)) = run c st (map (fun i => nth i ops dummy_op) order).
+Proof. exact concurrent_ops_linearizable. Qed.
+Print Assumptions C08_concurrent_ops_linearizable.
+
+(* ... and the invariant holds whenever the lock is free: after every prefix of every schedule *)
+Theorem C08_concurrent_ops_inv : forall U, good_universe U -> forall st ops sched,
+  bal_ok (st_bal st) -> Inv U (st_bal st) (st_pool st) -> Forall (op_ok U) ops ->
+  let st' := fst (exec sched (pool_conf fixed_cfg st ops)) in
+  bal_ok (st_bal st') /\ Inv U (st_bal st') (st_pool st').
+Proof. exact concurrent_ops_inv. Qed.
+Print Assumptions C08_concurrent_ops_inv.
+
+(* an Add whose duplicate check runs under one acquisition of the lock (a read-locked fast path) and the rest under
+   the next, without looking again: two goroutines adding the same transaction both pass the check before either
+   acts - it is listed twice, both report success; in either sequential order one of them is refused as a duplicate *)
+Theorem C08_check_then_act_refuted :
+  cta_ids (exec [0; 1; 0; 1]%nat cta_conf) = [0; 0]
+  /\ cta_results (exec [0; 1; 0; 1]%nat cta_conf) = [Some ROk; Some ROk]
+  /\ ~ NoDup (cta_ids (exec [0; 1; 0; 1]%nat cta_conf))
+  /\ cta_ids (exec [0; 0; 1; 1]%nat cta_conf) = [0] /\ cta_results (exec [0; 0; 1; 1]%nat cta_conf) = [Some ROk; Some (RErr EDup)]
+  /\ cta_ids (exec [1; 1; 0; 0]%nat cta_conf) = [0] /\ cta_results (exec [1; 1; 0; 0]%nat cta_conf) = [Some (RErr EDup); Some ROk].
+Proof. exact check_then_act_refuted. Qed.
+Print Assumptions C08_check_then_act_refuted.
+
+(* the split operation run without interruption IS Add (the two-region thread is a faithful decomposition) *)
+Example C08_example_split_add_is_add : forall c t st,
+  let c0 : @conf state (bool * option res) := (st, [split_add_thread c t]) in
+  fst (exec [0; 0]%nat c0) = snd (step c st (OAdd t))
+  /\ cta_results (exec [0; 0]%nat c0) = [Some (fst (step c st (OAdd t)))].
+Proof. exact split_add_sequential_is_add. Qed.
+
+(* Verify is not a read-only region: it caches the payer's balance in the fee table (finding F56: the code runs it
+   under the READ lock) *)
+Example C08_example_verify_writes_fee_table :
+  fees (new_pool 3) = [] /\ fees (snd (verify fixed_cfg cta_bal (new_pool 3) cta_tx)) = [((2, 0), (1000, 0))].
+Proof. exact verify_writes_fee_table. Qed.
 
 (* non-vacuity: a concrete universe, balances and history satisfying every hypothesis above *)
 Example C08_example_universe : good_universe ex_U /\ bal_ok ex_bal /\ Forall (op_ok ex_U) ex_ops.
